@@ -354,3 +354,55 @@ def pipeline_grid(tier, seed, n_random_quick=24, n_random_thorough=200, per_row_
     for n, c in enumerate(cases):
         c["id"] = "%s/%s#%d" % (c["iso"], c["tag"], n)
     return cases
+
+
+def script_presets():
+    """The scenario presets exactly as plot_manuscript_figures.py submits them: the script's
+    recalculate_plot_* functions are executed with its runner entry points replaced by recorders
+    (nothing is simulated).  -> list of (name, options, countries_list)."""
+    import collections
+    import importlib.util
+    import io
+    import contextlib
+
+    path = os.path.join(env.REPO, "plot_manuscript_figures.py")
+    spec = importlib.util.spec_from_file_location("_verif_plot_manuscript_figures", path)
+    mod = importlib.util.module_from_spec(spec)
+    with contextlib.redirect_stdout(io.StringIO()):
+        spec.loader.exec_module(mod)
+    rec = []
+
+    class _Res:
+        percent_people_fed = 0.0
+
+    def fake_runner(this_simulation, title, countries_list=[], figure_save_postfix="", return_results=False):
+        rec.append((title, copy.deepcopy(this_simulation), list(countries_list)))
+        return [None, 1.0, 1.0, collections.defaultdict(_Res)]
+
+    def fake_global(this_simulation, title):
+        rec.append((title, copy.deepcopy(this_simulation), ["WOR"]))
+        return _Res()
+
+    class _Stop(Exception):
+        pass
+
+    class FakeRunner:
+        def set_depending_on_option(self, this_simulation, country_data=None):
+            rec.append(("baseline_global", copy.deepcopy(this_simulation), ["WOR"]))
+            raise _Stop()
+
+    mod.call_scenario_runner = fake_runner
+    mod.call_global_scenario_runner = fake_global
+    mod.ScenarioRunner = FakeRunner
+    out = []
+    for fig in ("recalculate_plot_1", "recalculate_plot_2", "recalculate_plot_3", "recalculate_plot_s1"):
+        n0 = len(rec)
+        try:
+            with contextlib.redirect_stdout(io.StringIO()):
+                getattr(mod, fig)()
+        except _Stop:
+            pass
+        for k, (title, o, cl) in enumerate(rec[n0:]):
+            name = "script:%s:%d:%s" % (fig.replace("recalculate_plot_", "fig"), k, "".join(ch if ch.isalnum() else "_" for ch in title)[:40])
+            out.append((name, o, cl))
+    return out
